@@ -7,6 +7,8 @@ run — the check demands it whenever the C++ step raised no FE_INEXACT).
 -/
 import SharkVerif.Model.GradOpt
 import SharkVerif.Model.Objectives
+import SharkVerif.Model.LineSearches
+import SharkVerif.Model.TrustRegion
 import SharkVerif.Gen.LbfgsBox
 open SharkVerif.Opt
 
@@ -130,7 +132,10 @@ structure XSt where
   kind : String := ""
   ls : Nat := 2
   numHist : Nat := 100
+  minI : Float := 0
+  maxI : Float := 1
   cur : Option (LSOpt Float) := none
+  tcur : Option (TRN Float) := none
 
 def takeN (n : Nat) (l : List Float) : List Float × List Float := (l.take n, l.drop n)
 
@@ -197,6 +202,8 @@ def boxDirFields (l u x g : List Float) (bdiag : Float) (hist : List (List Float
    ("box-multBInv", cmpVec (LSOpt.multBInv bdiag hist p0m) bih),
    ("box-dir", cmpVec d dirH)]
 
+def lsFloat (minI maxI : Float) (type : Nat) : LineSearch Float := lineSearchOf Float.sqrt minI maxI type
+
 def xstep (o : Objective Float) (x : XSt) (h : LSOpt Float) (isInit : Bool) (bx : List Float := []) : String :=
   let boxLbfgs := o.constrained && x.kind == "lbfgs"
   if isInit then
@@ -212,18 +219,10 @@ def xstep (o : Objective Float) (x : XSt) (h : LSOpt Float) (isInit : Bool) (bx 
     | some cur =>
       -- the part of the step before computeSearchDirection
       let after : LSOpt Float × List (String × Nat) :=
-        if x.ls == 2 then
-          let a := LSOpt.afterLineSearch backtracking o cur
-          (a, [("point", cmpVec a.best.point h.best.point), ("value", cmpNum a.best.value.abs a.best.value h.best.value),
-               ("g", cmpVec a.derivative h.derivative)])
-        else
-          -- dlinmin / wolfecubic are not modelled: adopt the reported point, but it must be consistent
-          -- with the (bit-mirrored) objective and must not be worse than the old one
-          let a := { cur with lastDerivative := cur.derivative, lastPoint := cur.best.point, lastValue := cur.best.value,
-                              best := h.best, derivative := h.derivative, initialStep := 1 }
-          (a, [("value=f(point)", cmpNum 0 (o.f h.best.point) h.best.value),
-               ("g=grad(point)", cmpVec (o.grad h.best.point) h.derivative),
-               ("no-increase", if h.best.value ≤ cur.best.value then 0 else 2)])
+        -- all three line searches are modelled (Model/LineSearches.lean): run the model from the previous state
+        let a := LSOpt.afterLineSearch (lsFloat x.minI x.maxI x.ls) o cur
+        (a, [("point", cmpVec a.best.point h.best.point), ("value", cmpNum a.best.value.abs a.best.value h.best.value),
+             ("g", cmpVec a.derivative h.derivative)])
       let a := after.1
       let common := after.2 ++ [("lastPoint", cmpVec a.lastPoint h.lastPoint), ("lastDerivative", cmpVec a.lastDerivative h.lastDerivative),
                                 ("lastValue", cmpNum 0 a.lastValue h.lastValue), ("isl", cmpNum 0 a.initialStep h.initialStep)]
@@ -244,6 +243,26 @@ def xstep (o : Objective Float) (x : XSt) (h : LSOpt Float) (isInit : Bool) (bx 
       let a' := { a with best := h.best, derivative := h.derivative }
       let n := LSOpt.computeSearchDirection a'
       verdict (common ++ [("dir", cmpVec n.dir h.dir), ("model", cmpVec (modelNums n.model) (modelNums h.model))])
+
+/-- parse the flat `st=` field of a TrustRegionNewton state -/
+def parseTrn (t : String) : Option (TRN Float) := do
+  match t.splitOn "," with
+  | [] => none
+  | d :: rest =>
+    let n ← d.toNat?
+    let xs ← (rest.mapM parseBits).map (·.map Float.ofBits)
+    if xs.length != 2 * n + 3 + n * n then none else
+    let (pt, xs) := takeN n xs
+    let val := xs.headD 0; let xs := xs.drop 1
+    let (g, xs) := takeN n xs
+    let delta := xs.headD 0; let mir := (xs.drop 1).headD 0; let xs := xs.drop 2
+    some { delta := delta, minImprovementRatio := mir, best := ⟨pt, val⟩, gradient := g, hessian := chunk n xs }
+
+def trnFields (m h : TRN Float) : List (String × Nat) :=
+  [("point", cmpVec m.best.point h.best.point), ("value", cmpNum m.best.value.abs m.best.value h.best.value),
+   ("g", cmpVec m.gradient h.gradient), ("delta", cmpNum 0 m.delta h.delta),
+   ("minImprovementRatio", cmpNum 0 m.minImprovementRatio h.minImprovementRatio),
+   ("hessian", cmpVec m.hessian.flatten h.hessian.flatten)]
 
 /-! ### protocol -/
 
@@ -307,20 +326,24 @@ def step (s : St) (line : String) : St × String :=
       | some f, some r => report { s with fl := f, rt := r, ratOk := s.fl.cfg.kind != "adam" }
       | _, _ => (s, "bad-op")
     | none => (s, "bad-op")
-  | ["xls", n, inp, st] =>
-    -- direct backtracking line search: inp = t0, x(n), d(n); st = point(n), value, gradient(n) reported by the C++
-    match n.toNat?, (inp.splitOn ",").mapM parseBits, (st.splitOn ",").mapM parseBits with
-    | some n, some ib, some sb =>
+  | ["xls", typ, n, inp, st] =>
+    -- direct line search of type typ: inp = t0, x(n), d(n); st = point(n), value, gradient(n) reported by the C++
+    match typ.toNat?, n.toNat?, (inp.splitOn ",").mapM parseBits, (st.splitOn ",").mapM parseBits with
+    | some typ, some n, some ib, some sb =>
       let iv := ib.map Float.ofBits; let sv := sb.map Float.ofBits
       if iv.length != 2 * n + 1 || sv.length != 2 * n + 1 then (s, "bad-op") else
       let o := s.fl.obj
       let x := (iv.drop 1).take n; let d := iv.drop (n + 1)
-      let r := backtracking o x (o.f x) d (o.grad x) (iv.headD 0)
+      let r := lsFloat 0 1 typ o x (o.f x) d (o.grad x) (iv.headD 0)
       (s, verdict [("point", cmpVec r.point (sv.take n)), ("value", cmpNum r.value.abs r.value ((sv.drop n).headD 0)),
                    ("g", cmpVec r.gradient (sv.drop (n + 1)))])
-    | _, _, _ => (s, "bad-op")
-  | ["xopt", kind, ls, nh] =>
-    ({ s with x := { kind := kind, ls := ls.toNat?.getD 2, numHist := nh.toNat?.getD 100, cur := none } }, "ok")
+    | _, _, _, _ => (s, "bad-op")
+  | ["xopt", kind, ls, nh, minI, maxI] =>
+    match parseBits minI, parseBits maxI with
+    | some a, some b =>
+      ({ s with x := { kind := kind, ls := ls.toNat?.getD 2, numHist := nh.toNat?.getD 100,
+                       minI := Float.ofBits a, maxI := Float.ofBits b, cur := none } }, "ok")
+    | _, _ => (s, "bad-op")
   | ["xboxdir", n, m, inp, st] =>
     -- direct call of getBoxConstrainedDirection: inp = bdiag, x(n), g(n), l(n), u(n), S(m*n), Y(m*n);
     -- st = dir(n), p0(n), B⁻¹p0(n), Bp0(n) reported by the C++
@@ -348,6 +371,31 @@ def step (s : St) (line : String) : St × String :=
     match s.fl.best with
     | none => (s, "bad-op")
     | some _ => ({ s with fl := s.fl.saveRestore dblMax, rt := if s.ratOk then s.rt.saveRestore dblMaxRat else s.rt }, "saved")
+  | ["xtrn", op, st] =>
+    match parseTrn st with
+    | none => (s, "bad-op")
+    | some h =>
+      let o := s.fl.obj
+      let hess := mkHessian s.fl.kind s.fl.A
+      let out :=
+        if op == "init" then
+          -- delta and minImprovementRatio are configuration (arguments of init / set after it): adopted
+          let m := { TRN.init o hess h.best.point h.delta with minImprovementRatio := h.minImprovementRatio }
+          verdict (trnFields m h)
+        else match s.x.tcur with
+          | none => "bad-op"
+          | some cur =>
+            -- besides the refinement: the two facts the TRN theorems take as hypotheses / prove in exact arithmetic
+            -- are checked on the tied model: the sub-problem predicts no increase, its step is inside the radius
+            let sol := TRN.subproblem Float.sqrt cur
+            verdict (trnFields (TRN.step Float.sqrt o hess cur) h ++
+              -- (at a stationary point, g = 0, the C++ divides 0/0 in borderDistance: prediction and step are NaN, the
+              --  step is rejected because every comparison with NaN is false; NaN passes these two tests)
+              [("predicted-change<=0", if sol.1 > 0 then 2 else 0),
+               -- (not meaningful once delta² underflows: after convergence every step is rejected and the radius is divided
+               --  by 4 per step for ever)
+               ("step-inside-radius", if cur.delta * cur.delta > 1e-280 && Vec.normSqr sol.2 > cur.delta * cur.delta * (1 + 1e-6) then 2 else 0)])
+      ({ s with x := { s.x with tcur := some h } }, out)
   | [op, st, bx] =>
     if op != "xstep" then (s, "bad-op") else
     match parseSt s.x.kind s.x.numHist st, (bx.splitOn ",").mapM parseBits with
